@@ -833,3 +833,15 @@ m('L2-lock-order-inversion', 'C17', 'L2', 'acyclic', 'include/optree/treespec.h'
     PyTreeTypeRegistry* const registry = Singleton<NoneIsLeaf>();
     if (!registry_namespace.empty()) [[unlikely]] {
         const auto named_it =""")])
+m('N4-getattr-codify-prints-raw-entry', 'C04', 'N4', 'accessor.DataclassEntry/call~codify', 'optree/accessor.py',
+  """        return f'{node}.{self.name}'""",
+  """        return f'{node}.{self.entry}'""")
+m('N4-accessor-codify-folds-backwards', 'C04', 'N4', 'accessor.PyTreeAccessor/codify-folds-forward', 'optree/accessor.py',
+  """        string = root
+        for entry in self:
+            string = entry.codify(string)
+        return string""",
+  """        string = root
+        for entry in reversed(self):
+            string = entry.codify(string)
+        return string""")
